@@ -25,7 +25,7 @@ ASSUMPTIONS = [
     "the pending command whose sequence number a bad frame used may itself time out; the clauses protect other and later commands",
     "a flipped byte inside a correctly framed reply changes the decoded value undetectably (EZSP has no checksum) and is not flagged",
 ]
-PROBES = ["decodable_not_dispatched", "inject.truncated", "inject.empty", "inject.random", "inject.flip", "inject.fid_subst", "inject.seq_subst", "inject.unknown_id", "inject.repeated",
+PROBES = ["decodable_not_dispatched", "inject.truncated", "inject.empty", "inject.random", "inject.flip", "inject.fid_subst", "inject.seq_subst", "inject.unknown_id", "inject.repeated", "inject.stale_own_reply",
           "undecodable_ignored", "decodable_dispatched", "pending_seq_foreign_fid", "pending_seq_own_fid", "pending_call_timed_out_after_bad_frame",
           "after_command_ok", "mode.idle", "mode.pending"]
 
@@ -226,6 +226,37 @@ def run(scenario, params, tape, detail=False):
             except Exception as e:
                 viol.append(("C08.after", "command-failed", f"v{V}: getEui64 issued after {what} frame {data.hex()} raised {e!r}"))
 
+        async def inject_stale(mode):
+            """The pending getValue is given up (caller cancelled / 10 s timeout), THEN its genuine reply arrives: a frame with a known ID, a
+            decodable payload and a sequence number that answers no pending call any more."""
+            hold["on"] = True
+            hold["reqs"].clear()
+            call = loop.create_task(ez.getValue(valueId=t.EzspValueId.VALUE_FREE_BUFFERS))
+            await asyncio.sleep(0.1)
+            if not hold["reqs"]:
+                call.cancel()
+                hold["on"] = False
+                return
+            req, genuine = hold["reqs"][0]
+            if mode == "cancel":
+                call.cancel()
+                await asyncio.sleep(0.01)
+            else:
+                await asyncio.sleep(10.2)
+            hold["on"] = False
+            nr = len(raised)
+            probe("inject.stale_own_reply")
+            injected.append(genuine + mode.encode())
+            req.nrsp += 1
+            ncp.emit(genuine, 0.0, "rsp", req.seq)
+            await asyncio.sleep(0.2)
+            if len(raised) > nr:
+                viol.append(("C08.noraise", "escaped", f"v{V}: EZSP.frame_received raised {raised[-1][2]} for the genuine reply {genuine.hex()} of a getValue whose caller had "
+                             f"{'been cancelled' if mode == 'cancel' else 'timed out'} (seq {req.seq})"))
+            if not call.done():
+                call.cancel()
+            await after_check(f"late own reply ({mode})", genuine)
+
         async def after_check(what, data):
             try:
                 before = token[0]
@@ -240,6 +271,9 @@ def run(scenario, params, tape, detail=False):
         if scenario == "trunc":
             mode = params["mode"]
             probe("mode." + mode)
+            if mode == "pending":
+                await inject_stale("cancel")
+                await inject_stale("timeout")
             for name in params["frames"]:
                 if name not in ncp.cmds:
                     continue
@@ -307,6 +341,8 @@ def run(scenario, params, tape, detail=False):
                 return bytes(b)
 
             probe("inject." + {"trunc": "truncated"}.get(kind, kind))
+            if tape.draw(12, "stale?") == 11:
+                await inject_stale(("cancel", "timeout")[tape.draw(2, "stale.mode")])
             if pending:
                 probe("mode.pending")
                 if kind == "seq_subst":
